@@ -415,8 +415,66 @@ int main(int argc, char** argv) {
     f9.chunk = 1;
     f9.group = "I9";
     f9.rule = "U64toa, I64toa and Dump() called from the constructor of a global that is defined above every library include (i.e. during static initialisation, before any dynamic initialiser of the library's headers in this translation unit) on 13 values of every digit-count class: same text as snprintf";
-    fams = {f1, f2, f3, f4, f5, f6, f7, f8, f9};
+    // I10: the ADDRESS of the output buffer relative to a page boundary (a printer may choose its store strategy
+    // by whether a 16-byte store would cross into the next page): every offset of out from 40 bytes before to 8
+    // bytes after a boundary between two mapped pages, values with zero-padded digit groups in every position
+    static std::vector<uint64_t> V10;
+    if (V10.empty()) {
+      static const uint64_t lows[] = {0, 1, 9, 10, 99, 9999, 10000, 1234567, 9999999, 10000000, 10000001, 12345678, 99999999};
+      static const uint64_t highs[] = {0, 1, 9, 10, 12, 999, 1000000, 9999999, 10000000, 99999999};
+      static const uint64_t tops[] = {0, 1, 12, 999, 1844};
+      for (uint64_t t : tops)
+        for (uint64_t h : highs)
+          for (uint64_t l : lows) {
+            unsigned __int128 v = (unsigned __int128)t * 10000000000000000ull + h * 100000000ull + l;
+            if (v <= UINT64_MAX) V10.push_back((uint64_t)v);
+          }
+      std::sort(V10.begin(), V10.end());
+      V10.erase(std::unique(V10.begin(), V10.end()), V10.end());
+    }
+    static char* pg10 = nullptr;
+    if (!pg10) {
+      pg10 = (char*)mmap(nullptr, 3 * 4096, PROT_READ | PROT_WRITE, MAP_PRIVATE | MAP_ANONYMOUS, -1, 0);
+    }
+    vr::Family f10;
+    f10.name = "I10_output_address_at_page_boundary";
+    f10.count = (uint64_t)V10.size() * 49;
+    f10.chunk = 256;
+    f10.group = "I10";
+    f10.rule = "values top*10^16 + high*10^8 + low with zero-padded / full / boundary groups (" + std::to_string(V10.size()) + " values) printed by U64toa and (negated, where it fits) I64toa into a buffer that starts at every offset from 40 bytes before to 8 bytes after a boundary between two mapped pages: same text as snprintf, nothing written before the buffer or beyond out+32";
+    fams = {f1, f2, f3, f4, f5, f6, f7, f8, f9, f10};
     check = [&](const vr::Family& f, uint64_t idx, vr::Ctx& ctx) {
+      if (f.name[1] == '1' && f.name[2] == '0') {
+        int off = (int)(idx % 49) - 40;
+        uint64_t v = V10[idx / 49];
+        char* out0 = pg10 + 4096 + off;
+        char exp[32];
+        ctx.nontriv();
+        if (ctx.want_sample) ctx.sample(std::to_string(v) + " at page boundary " + (off < 0 ? "-" : "+") + std::to_string(off < 0 ? -off : off));
+        for (int sg = 0; sg < 2; sg++) {
+          if (sg && v > (uint64_t)INT64_MAX + 1) break;
+          std::memset(out0 - 8, 0x5a, 8 + 32 + 8);
+          char* e;
+          int n;
+          if (!sg) {
+            e = internal::U64toa(out0, v);
+            n = snprintf(exp, sizeof exp, "%" PRIu64, v);
+          } else {
+            int64_t sv = (int64_t)(0 - v);
+            e = internal::I64toa(out0, sv);
+            n = snprintf(exp, sizeof exp, "%" PRId64, sv);
+          }
+          ctx.eval();
+          if (e - out0 != n || std::memcmp(out0, exp, (size_t)n) != 0)
+            ctx.violation(sg ? "i64toa" : "u64toa", sg ? "i64toa_at_page_boundary" : "u64toa_at_page_boundary", exp, "%s(%s) into a buffer %d bytes %s a page boundary wrote '%.*s' (len %td)", sg ? "I64toa" : "U64toa", exp, off < 0 ? -off : off,
+                          off < 0 ? "before" : "after", (int)std::min<ptrdiff_t>(e - out0, 24), out0, e - out0);
+          for (int i = -8; i < 0; i++)
+            if (out0[i] != 0x5a) ctx.violation("u64toa_underwrite", "u64toa_underwrite", exp, "[page boundary] byte before the output buffer modified");
+          for (int i = 32; i < 40; i++)
+            if (out0[i] != 0x5a) ctx.violation("u64toa_overwrite", "u64toa_overwrite", exp, "[page boundary] byte beyond out+32 modified");
+        }
+        return;
+      }
       switch (f.name[1]) {
         case '9': {
           uint64_t v = kEarlyVals[idx];
